@@ -23,9 +23,12 @@ def builds_needed(tier):
 def extra_builds(tier):
     def vec(fname, i):
         # the vector code is in the block functions: the graph shards (every partition of 4 blocks) of the digests that have one
-        if fname != "shard_graph":
+        if fname not in ("shard_graph", "shard_tree"):
             return False
         n = specs(tier)[i][0]
+        if fname == "shard_tree":
+            # the five-block input letter exists in tree mode only: the SHA-256 multi-block vector paths need it
+            return "sha256" in n or "sha224" in n
         return "sha256" in n or "sha224" in n or "blake2" in n
 
     def chk(fname, i):
